@@ -17,6 +17,119 @@ HASHLIB_NAMES = {"md5", "sha1", "sha224", "sha256", "sha384", "sha512",
 XXHASH_CTORS = {"xxh32", "xxh64", "xxh128", "xxh3_64", "xxh3_128"}
 
 
+def produced(body: list[ast.stmt] | None):
+    """What one dispatch arm produces: ("return", call, None) for
+    `return CALL`, ("append", call, acc) for `ACC.append(CALL)`; the arm must
+    be that single statement."""
+    if not body or len(body) != 1:
+        return None, None, None
+    st = body[0]
+    if isinstance(st, ast.Return) and isinstance(st.value, ast.Call):
+        return "return", st.value, None
+    if isinstance(st, ast.Expr) and isinstance(st.value, ast.Call) and \
+            isinstance(st.value.func, ast.Attribute) and \
+            st.value.func.attr == "append" and len(st.value.args) == 1 and \
+            isinstance(st.value.args[0], ast.Call):
+        return "append", st.value.args[0], dotted(st.value.func.value)
+    return None, None, None
+
+
+def find_name_dispatch(ctx: Context):
+    """The literal dispatch (match or if/elif) of the checksum module whose
+    fall-through arm hands the subject to hashlib.new."""
+    from sa.dispatch import literal_dispatches
+    found = []
+    for f in ctx.repo.module(UT).functions.values():
+        for d in literal_dispatches(f.body_nodes()):
+            if d.default is None or not isinstance(d.subject, ast.Name):
+                continue
+            k, call, acc = produced(d.default)
+            if call is not None and ctx.is_call(f, call, "hashlib.new"):
+                found.append((f, d, k, acc))
+    if len(found) != 1:
+        raise AnalysisError("C16.names: the name -> hash object dispatch "
+                            f"(fall-through hashlib.new) was found "
+                            f"{len(found)} times")
+    return found[0]
+
+
+def ordered_hash_objects(ctx: Context, hc, hf_var, gf, disp, kind, acc_name):
+    """Is `hf_var` of hash_checksums one hash object per entry of the
+    `hashes` parameter, in order?"""
+    if hf_var is None:
+        return False, None
+    hashes = hc.params()[1]
+    subject = dotted(disp.subject)
+
+    def defs_of(name):
+        return [n for n in hc.body_nodes() if isinstance(n, (ast.Assign,
+                                                             ast.AnnAssign))
+                and dotted(n.targets[0] if isinstance(n, ast.Assign)
+                           else n.target) == name]
+
+    def element_ok(e: ast.AST, var: str | None) -> bool:
+        # gf(var): the by-name function applied to this entry
+        return kind == "return" and isinstance(e, ast.Call) and any(
+            t is gf for t in ctx.internal_targets(hc, e)) and len(
+                e.args) + len(e.keywords) == 1 and dotted(
+                    (e.args + [k.value for k in e.keywords])[0]) == var and \
+            gf.params()[:1] == [subject]
+
+    ds = defs_of(hf_var)
+    if len(ds) != 1 or ds[0].value is None:
+        return False, ds[0] if ds else None
+    d = ds[0]
+    v = d.value
+    if isinstance(v, ast.Call) and isinstance(v.func, ast.Name) and \
+            v.func.id in ("tuple", "list") and len(v.args) == 1:
+        v = v.args[0]
+    if isinstance(v, (ast.GeneratorExp, ast.ListComp)):
+        if len(v.generators) != 1:
+            return False, d
+        g = v.generators[0]
+        return (dotted(g.iter) == hashes and not g.ifs and not g.is_async and
+                element_ok(v.elt, dotted(g.target))), d
+    if not isinstance(v, ast.Name):
+        return False, d
+    acc = v.id
+    ads = defs_of(acc)
+    if len(ads) != 1 or not ((isinstance(ads[0].value, ast.List) and
+                              not ads[0].value.elts) or
+                             (isinstance(ads[0].value, ast.Call) and
+                              dotted(ads[0].value.func) == "list" and
+                              not ads[0].value.args)):
+        return False, d
+    # every use of the accumulator: its definition, appends inside the one
+    # loop over `hashes`, and the final read
+    loops = [n for n in hc.body_nodes() if isinstance(n, ast.For) and
+             dotted(n.iter) == hashes and not n.orelse and
+             isinstance(n.target, ast.Name)]
+    uses = [n for n in hc.body_nodes() if isinstance(n, ast.Name) and
+            n.id == acc and isinstance(n.ctx, ast.Load)]
+    if len(loops) != 1:
+        return False, d
+    lp = loops[0]
+    if any(isinstance(a, (ast.For, ast.While, ast.If, ast.Try))
+           for a in __import__("sa.model", fromlist=["ancestors"]).ancestors(lp)
+           if a is not hc.node and not isinstance(a, (ast.FunctionDef,
+                                                      ast.AsyncFunctionDef))):
+        return False, d
+    inside = [u for u in uses if any(x is u for x in ast.walk(lp))]
+    outside = [u for u in uses if u not in inside]
+    if len(outside) != 1 or len(lp.body) != 1:
+        return False, d
+    body = lp.body[0]
+    if isinstance(body, ast.Expr):
+        k, call, a = produced([body])
+        return (k == "append" and a == acc and
+                element_ok(call, lp.target.id)), d
+    # the dispatch itself is the loop body (by-name helper inlined)
+    if body is disp.node and kind == "append" and acc_name == acc and \
+            subject == lp.target.id:
+        return True, d
+    return False, d
+
+
 def run(ctx: Context, rep) -> None:
     rep.not_decided = (
         "the digest values themselves and the correctness of hashlib / "
@@ -29,48 +142,37 @@ def run(ctx: Context, rep) -> None:
         "readinto returns the number of bytes placed at the start of the "
         "buffer and 0 only at end of file (unbuffered binary file)",
     ]
-    gf = ctx.fn(f"{UT}:_get_hash_function")
     hc = ctx.fn(f"{UT}:hash_checksums")
+    gf, disp, kind, acc_name = find_name_dispatch(ctx)
+    subject = dotted(disp.subject)
 
     rep.rule(
         "C16.names",
-        "in _get_hash_function every explicit arm constructs the object "
-        "whose constructor name equals the case literal; the fall-through "
-        "passes the name unchanged to hashlib.new; every member of "
-        "HashChecksumT without an arm is a hashlib algorithm name")
+        "in the name -> hash object dispatch every explicit arm constructs "
+        "the object whose constructor name equals the case literal; the "
+        "fall-through passes the name unchanged to hashlib.new; every member "
+        "of HashChecksumT without an arm is a hashlib algorithm name")
     arms: dict[str, str] = {}
-    default_ok = False
-    matches = [n for n in gf.body_nodes() if isinstance(n, ast.Match)]
-    if len(matches) != 1 or dotted(matches[0].subject) != gf.params()[0]:
-        raise AnalysisError("C16.names: dispatch shape of _get_hash_function "
-                            "not understood")
-    for case in matches[0].cases:
-        lits = case_literals(case.pattern)
-        body = case.body
-        ret = body[-1] if body and isinstance(body[-1], ast.Return) else None
-        if lits is None:
-            if isinstance(case.pattern, ast.MatchAs) and \
-                    case.pattern.pattern is None and ret is not None:
-                v = ret.value
-                default_ok = isinstance(v, ast.Call) and ctx.is_call(
-                    gf, v, "hashlib.new") and len(v.args) == 1 and \
-                    dotted(v.args[0]) == gf.params()[0] and len(body) == 1
-                rep.ob("C16.names", default_ok, loc=gf.loc(case.pattern),
-                       where=gf.qualname, construct=short(ret),
-                       message="other names go to hashlib.new unchanged")
-                continue
-            raise AnalysisError("C16.names: case pattern not understood")
+    v = produced(disp.default)[1]
+    default_ok = isinstance(v, ast.Call) and ctx.is_call(
+        gf, v, "hashlib.new") and len(v.args) == 1 and not v.keywords and \
+        dotted(v.args[0]) == subject
+    rep.ob("C16.names", default_ok, loc=gf.loc(disp.default[0]),
+           where=gf.qualname, construct=short(disp.default[-1]),
+           message="other names go to hashlib.new unchanged")
+    for lits, body in disp.arms:
+        k, call, acc = produced(body)
         for lit in lits:
-            ok = ret is not None and isinstance(ret.value, ast.Call) and \
-                not ret.value.args and len(body) == 1
-            ctor = (ctx.repo.qualify(gf.module, ret.value.func) or
-                    ast.unparse(ret.value.func)) if ok else "?"
+            ok = call is not None and not call.args and not call.keywords and \
+                k == kind and acc == acc_name
+            ctor = (ctx.repo.qualify(gf.module, call.func) or
+                    ast.unparse(call.func)) if call is not None else "?"
             arms[lit] = ctor
             mod, _, name = ctor.rpartition(".")
             rep.ob("C16.names", ok and name == lit and mod in ("xxhash",
                                                                 "hashlib"),
-                   loc=gf.loc(case.pattern), where=gf.qualname,
-                   construct=f"case {lit!r}: {short(ret)}",
+                   loc=gf.loc(body[0]), where=gf.qualname,
+                   construct=f"case {lit!r}: {short(body[-1])}",
                    message="the algorithm constructed is the one named")
     members = literal_members(ctx, "HashChecksumT")
     for m in members:
@@ -230,32 +332,18 @@ def run(ctx: Context, rep) -> None:
         "over the `hashes` argument (one object per entry, repetitions "
         "included) and the result is the tuple of their hexdigest() in the "
         "same order")
-    hf_defs = [n for n in hc.body_nodes() if isinstance(n, (ast.Assign,
-                                                            ast.AnnAssign))
-               and any(ctx.is_call(hc, c, "utils._get_hash_function")
-                       for c in ast.walk(n.value or ast.Constant(0))
-                       if isinstance(c, ast.Call))]
-    ok_build = False
     hf_var = None
-    if len(hf_defs) == 1:
-        v = hf_defs[0].value
-        t = hf_defs[0].targets[0] if isinstance(hf_defs[0], ast.Assign) else \
-            hf_defs[0].target
-        hf_var = dotted(t)
-        comp = v.args[0] if isinstance(v, ast.Call) and isinstance(
-            v.func, ast.Name) and v.func.id in ("tuple", "list") and v.args \
-            else v
-        if isinstance(comp, (ast.GeneratorExp, ast.ListComp)) and \
-                len(comp.generators) == 1:
-            g = comp.generators[0]
-            ok_build = dotted(g.iter) == hc.params()[1] and not g.ifs and \
-                isinstance(comp.elt, ast.Call) and ctx.is_call(
-                    hc, comp.elt, "utils._get_hash_function") and \
-                comp.elt.args and dotted(comp.elt.args[0]) == dotted(g.target)
-    rep.ob("C16.out", ok_build, loc=hc.loc(hf_defs[0]) if hf_defs else hc.loc(),
-           where=hc.qualname,
-           construct=short(hf_defs[0], 100) if hf_defs else "<none>",
-           message="tuple/list comprehension over `hashes` (no dict/set, no "
+    if updates:
+        inner0 = parent(parent(updates[0]))
+        if isinstance(inner0, ast.For):
+            hf_var = dotted(inner0.iter)
+    ok_build, hf_def = ordered_hash_objects(ctx, hc, hf_var, gf, disp, kind,
+                                            acc_name)
+    rep.ob("C16.out", ok_build, loc=hc.loc(hf_def) if hf_def is not None
+           else hc.loc(), where=hc.qualname,
+           construct=short(hf_def, 100) if hf_def is not None else "<none>",
+           message="one hash object per entry of `hashes`, in order "
+           "(comprehension or append loop over `hashes`; no dict/set, no "
            "filter, no sort)")
     rets = [n for n in hc.body_nodes() if isinstance(n, ast.Return)]
     ok_ret = False
